@@ -284,7 +284,7 @@ def run(ctx):
         kind, what, mod, cfg, r = res[:5]
         account(mod, cfg, r, **({"graph": True} if kind == "graph" else {}))
         if kind == "mut":
-            if r.violated is None:
+            if r.ok:
                 raise tlc.TLCError("sensitivity self-test: model defect %r of RefImpl must be detected by TLC" % what)
         elif not r.ok:
             raise tlc.TLCError("specification Object/%s (%s) does not satisfy its own properties (%s); this is a model failure, "
